@@ -99,7 +99,7 @@ class C15:
                    'a resulting pitch with more than two accidentals is unconstrained: the call may raise or produce anything for that note',
                    'note cells are located through the generator\'s abstract document, pitch fields through the @-separated eKern cell']
     PROBES = ['fails_midway', 'chain_len_ge_3', 'result_needs_accidental', 'octave_crossed', 'down_direction', 'back_restores',
-              'interrupt_delivered', 'invalid_argument', 'clone_then_transpose', 'source_rechecked_after_transpose', 'background_pitch_api']
+              'interrupt_delivered', 'invalid_argument', 'clone_then_transpose', 'source_rechecked_after_transpose', 'background_pitch_api', 'long_score_over_recursion_limit']
 
     # ---------------------------------------------------------------- plan
     def gen_plan(self, seed, index, tier):
@@ -107,8 +107,17 @@ class C15:
         drng, rng, frng, erng = st['doc'], st['ops'], st['faults'], st['env']
         core = erng.random() < 0.6
         faulty = erng.random() < 0.5
-        ndocs = drng.choice([1, 1, 2])
+        long_run = erng.random() < 0.012
+        ndocs = 1 if long_run else drng.choice([1, 1, 2])
         docs = []
+        if long_run:
+            # a score longer than the interpreter's recursion limit; few operations (every import/export costs ~1 s)
+            docs.append(docgen.gen_long_doc(drng, rows=drng.choice([1050, 1200, 1500])).to_json())
+            core = True
+            ops = [{'op': 'import', 'doc': 0}, {'op': 'transpose', 'h': 0, 'iv': rng.choice(['M2', 'P5', 'm3', 'octave', 'A4']), 'dir': rng.choice(['up', 'down'])}]
+            if rng.random() < 0.5:
+                ops.append({'op': 'back', 'h': 1})
+            return {'property': self.PROPERTY, 'config': 'fault_free', 'class': 'core', 'docs': docs, 'ops': ops, 'warnings': 'default', 'long': True}
         for _ in range(ndocs):
             if core:
                 F = docgen.swarm_features(drng, accidentals=False, acc_display=False, chords=False, combining_sigs=False, quote_cells=False,
@@ -183,6 +192,8 @@ class C15:
             viol.append({'class': cls, 'signature': sig, 'seq': log.seq, 'expected': expected, 'actual': actual, 'detail': detail})
 
         docs = [docgen.Doc.from_json(d) for d in plan['docs']]
+        if plan.get('long'):
+            bump(probes, 'long_score_over_recursion_limit')
         if not all(d.consistent() for d in docs):
             from simkit.runner import HarnessError
             raise HarnessError('plan document: the abstract annotation does not match its own spine operators')
